@@ -165,7 +165,9 @@ def print_axioms(module, theorems, tag):
 def compile_harness(name, sources, extra_flags=(), cxx=False, libs=(), defines=(), timeout=600, san=True, includes=()):
     """Compile `sources` (absolute paths; repo files given relative to REPO) into BUILD/<name>/<name>.
     Always recompiles: the working tree of REPO may have changed."""
-    outdir = os.path.join(BUILD, name)
+    # one build directory per (check, harness): two checks that run at the same time do not pull the executable from under each other
+    tag = os.environ.get("ACQ_BUILD_TAG", "")
+    outdir = os.path.join(BUILD, tag, name) if tag else os.path.join(BUILD, name)
     shutil.rmtree(outdir, ignore_errors=True)
     os.makedirs(outdir)
     incs = ["-I" + os.path.join(REPO, i) for i in INC] + ["-I" + i for i in includes]
